@@ -15,6 +15,11 @@ inductive Reach (h : Heap) : SlabID → SlabID → Prop where
   | refl (a : SlabID) : Reach h a a
   | step {a b c : SlabID} : Reach h a b → (b, c) ∈ edges h → Reach h a c
 
+/-- No reference cycle can be entered from `root`: no slab reachable from `root` lies on a cycle.
+    (On such a cycle `getAllChildReferences` / `CheckStorageHealth` do not terminate.) -/
+def NoCycleBelow (h : Heap) (root : SlabID) : Prop :=
+  ∀ x y, Reach h root x → (x, y) ∈ edges h → ¬ Reach h y x
+
 /-- The heap is healthy and `roots` is its set of roots. -/
 structure Healthy (h : Heap) (roots : List SlabID) : Prop where
   /-- every reference resolves -/
